@@ -14,6 +14,7 @@
 (* Anchors: bucket.go:148-578 (API + error precedence), cursor.go.         *)
 (***************************************************************************)
 EXTENDS Integers, Sequences, FiniteSets, TLC
+LOCAL INSTANCE SequencesExt
 
 EmptyKey == 0
 BigKey   == 1000000
@@ -40,10 +41,8 @@ RECURSIVE Paths(_, _)
 Paths(b, pre) == {pre} \cup UNION {Paths(b.ents[k].b, Append(pre, k)) : k \in {x \in DOMAIN b.ents : b.ents[x].t = "b"}}
 PathPrefix(p, q) == Len(p) <= Len(q) /\ SubSeq(q, 1, Len(p)) = p
 
-\* sorted sequence of a finite set of integers
-RECURSIVE SortSet(_)
-SortSet(S) == IF S = {} THEN <<>>
-              ELSE LET m == CHOOSE x \in S : \A y \in S : x <= y IN <<m>> \o SortSet(S \ {m})
+\* sorted sequence of a finite set of integers (Java-backed operator of the CommunityModules)
+SortSet(S) == SetToSortSeq(S, LAMBDA x, y : x < y)
 Keys(b) == SortSet(DOMAIN b.ents)
 KeyN(b) == Cardinality({k \in DOMAIN b.ents : b.ents[k].t = "v"})
 BucketN(b) == Cardinality({k \in DOMAIN b.ents : b.ents[k].t = "b"})
@@ -169,9 +168,8 @@ CurStep(b, pos, op, arg) ==
         [] op = "Prev"  -> IF pos = Unset THEN [pos |-> pos, k |-> NilV]
                            ELSE IF pos > 1 THEN [pos |-> pos - 1, k |-> at(pos - 1)]
                            ELSE [pos |-> pos, k |-> NilV]
-        [] op = "Seek"  -> LET ge == {i \in 1..n : ks[i] >= arg} IN
-                           IF ge = {} THEN [pos |-> n + 1, k |-> NilV]
-                           ELSE LET i == CHOOSE x \in ge : \A y \in ge : x <= y IN [pos |-> i, k |-> ks[i]]
+        [] op = "Seek"  -> LET i == Cardinality({k \in DOMAIN b.ents : k < arg}) + 1 IN
+                           [pos |-> i, k |-> at(i)]
 \* value seen through a cursor for key k of bucket b: NilV for nested buckets
 CurValue(b, k) == IF k = NilV THEN NilV ELSE b.ents[k].v
 
